@@ -1,7 +1,6 @@
-(* C07: the translated functions composed as the command line composes them - one
-   calculate_pairwise_distance_matrix_on_predictions per listed chunk index, ChunkedDistanceMatrix.concat, to_dense -
-   equal the model's pipeline (Model/DistMat.pipeline; save / load, the identity on the model's values, are not part of
-   the composition). *)
+(* C07: the translated functions composed as the command line composes them - per listed chunk index one
+   calculate_pairwise_distance_matrix_on_predictions, save, load; then ChunkedDistanceMatrix.concat and to_dense -
+   equal the model's pipeline (Model/DistMat.pipeline). *)
 From Coq Require Import ZArith List Bool Lia.
 From Batchie Require Import Lib.Sexp Lib.PyRt Lib.ListX Model.Chunks Model.DistMat Generated.SrcChunks Generated.SrcDistMat
   Proofs.C07Chunks Proofs.C07DistMat Proofs.C07Source Proofs.C07SourceMat.
@@ -22,23 +21,31 @@ Notation ok := (storage_ok vzero visz).
 Notation abs := (dm_of_storage vzero).
 Notation d := (metric_of V Th Pr get_theta predict dist).
 
+(* one job of the pipeline: compute the chunk, save it, load the file *)
+Definition one_chunk (n : nat) (c k : Z) : result (cdm V) :=
+  dor m <- src_calculate_pairwise V vzero visz Th Pr (Z.of_nat n) get_theta predict dist k c;
+  dor f <- src_cdm_save V vzero visz m;
+  src_cdm_load V vzero visz f.
+
 Definition src_pipeline (n : nat) (c : Z) (order : list Z) : result (list (list V)) :=
-  dor ms <- res_map_all (fun k => src_calculate_pairwise V vzero visz Th Pr (Z.of_nat n) get_theta predict dist k c) order;
+  dor ms <- res_map_all (fun k => one_chunk n c k) order;
   dor m <- src_cdm_concat V vzero visz ms;
   src_cdm_to_dense V vzero visz m.
 
 Lemma calc_chunks n c order : (forall k, In k order -> 0 <= k < c) ->
-  exists sts, res_map_all (fun k => src_calculate_pairwise V vzero visz Th Pr (Z.of_nat n) get_theta predict dist k c) order = Ok sts
+  exists sts, res_map_all (fun k => one_chunk n c k) order = Ok sts
     /\ Forall ok sts /\ map abs sts = map (fun k => mk V d n (chunk n k c)) order.
 Proof.
   induction order as [|k order IH]; intros H; cbn [res_map_all map].
   - exists []. repeat split. constructor.
   - pose proof (src_calculate_is_model V vzero visz visz_zero Th Pr get_theta predict dist n k c (H k ltac:(now left))) as L.
-    rewrite compute_chunk_ok in L.
+    rewrite compute_chunk_ok in L. unfold one_chunk at 1.
     destruct (src_calculate_pairwise V vzero visz Th Pr (Z.of_nat n) get_theta predict dist k c) as [st|t];
       cbn [storage_refines] in L; [|contradiction].
     destruct L as [L1 L2]. destruct (IH ltac:(intros k' Hk'; apply H; now right)) as (sts & E & F & M).
-    exists (st :: sts). rewrite E. cbn [res_bind map]. repeat split; [now constructor | now rewrite L2, M].
+    cbn [res_bind]. rewrite src_save_is_model. cbn [res_bind]. rewrite (src_load_of_saved V vzero visz st L1).
+    destruct (composed1_ok V vzero visz visz_zero st L1) as [C1 C2].
+    exists (composed1 V vzero st :: sts). rewrite E. cbn [res_bind map]. repeat split; [now constructor | now rewrite C2, L2, M].
 Qed.
 
 Lemma valid_none n ps : (n < 2)%nat -> Forall (valid n) ps -> ps = [].
